@@ -216,7 +216,7 @@ func c38IndexState(p *an.Prog, r *an.R, getHash *types.Func) {
 	}
 	r.Fn(an.FuncName(f))
 	info := d.Pkg.TypesInfo
-	g := an.NewG(info, d.Decl.Body)
+	_ = an.NewG
 	idxOpts := p.Field("", "Repository", "IndexOptions")
 	branches := p.Field("", "Repository", "Branches")
 	eq, _ := p.Obj("index", "IndexStateEqual").(*types.Const)
@@ -250,24 +250,28 @@ func c38IndexState(p *an.Prog, r *an.R, getHash *types.Func) {
 		return truth
 	}
 	n := 0
-	for _, l := range g.Locs(func(nd ast.Node) bool { _, ok := nd.(*ast.ReturnStmt); return ok }) {
-		rs := g.Node(l).(*ast.ReturnStmt)
-		if len(rs.Results) == 0 {
-			continue
+	// the classification may have been split off into a method of Options that IndexState returns
+	for _, xd := range calleeDecls(p, d) {
+		g := an.NewG(info, xd.Decl.Body)
+		for _, l := range g.Locs(func(nd ast.Node) bool { _, ok := nd.(*ast.ReturnStmt); return ok }) {
+			rs := g.Node(l).(*ast.ReturnStmt)
+			if len(rs.Results) == 0 {
+				continue
+			}
+			id, ok := ast.Unparen(rs.Results[0]).(*ast.Ident)
+			if !ok {
+				continue
+			}
+			c, _ := info.Uses[id].(*types.Const)
+			if c != eq && c != meta {
+				continue
+			}
+			n++
+			okH := g.GuardedBy(l, hashEqual, nil)
+			okB := g.GuardedBy(l, branchesEqual, nil)
+			r.Check(okH, "C38.R3", "index.(*Options).IndexState/return-"+c.Name()+"/after-option-hash-compared", rs.Pos(), "only reached when repo.IndexOptions == o.GetHash()", "IndexState can answer "+c.Name()+" without having compared the stored option hash with GetHash(): a change of build options no longer causes a re-index")
+			r.Check(okB, "C38.R3", "index.(*Options).IndexState/return-"+c.Name()+"/after-branches-compared", rs.Pos(), "only reached when the stored and requested Branches compared equal", "IndexState can answer "+c.Name()+" without having compared the stored branches with the requested ones: new commits no longer cause a re-index")
 		}
-		id, ok := ast.Unparen(rs.Results[0]).(*ast.Ident)
-		if !ok {
-			continue
-		}
-		c, _ := info.Uses[id].(*types.Const)
-		if c != eq && c != meta {
-			continue
-		}
-		n++
-		okH := g.GuardedBy(l, hashEqual, nil)
-		okB := g.GuardedBy(l, branchesEqual, nil)
-		r.Check(okH, "C38.R3", "index.(*Options).IndexState/return-"+c.Name()+"/after-option-hash-compared", rs.Pos(), "only reached when repo.IndexOptions == o.GetHash()", "IndexState can answer "+c.Name()+" without having compared the stored option hash with GetHash(): a change of build options no longer causes a re-index")
-		r.Check(okB, "C38.R3", "index.(*Options).IndexState/return-"+c.Name()+"/after-branches-compared", rs.Pos(), "only reached when the stored and requested Branches compared equal", "IndexState can answer "+c.Name()+" without having compared the stored branches with the requested ones: new commits no longer cause a re-index")
 	}
 	r.Floor("C38.R3.equal-meta-returns", 2, n)
 	// MergeMutable
